@@ -35,6 +35,8 @@ pub struct Profile {
     pub eager_worker_pct: u64,
     /// occasionally a payload of 70-150 KB (more than the 64 KB / 1 KB internal buffers)
     pub huge_payloads: bool,
+    /// flush(None) (no callback) as a frequent op
+    pub flush_none_heavy: bool,
 }
 
 #[derive(Clone, Copy, Debug, PartialEq, Eq)]
@@ -66,6 +68,7 @@ impl Profile {
             flush_heavy: false,
             eager_worker_pct: 15,
             huge_payloads: false,
+            flush_none_heavy: false,
         }
     }
 }
@@ -536,7 +539,7 @@ pub fn gen_spec(prop: &str, run_seed: u64, p: &Profile) -> Spec {
     let w_commit = w(&mut rng, &[0, 1, 2]);
     let w_ud = w(&mut rng, &[0, 1, 1]);
     let w_flush = if p.flush_heavy { w(&mut rng, &[6, 10, 14]) } else { w(&mut rng, &[1, 3, 6]) };
-    let w_flush_none = w(&mut rng, &[0, 0, 1]);
+    let w_flush_none = if p.flush_none_heavy { w(&mut rng, &[1, 2, 4]) } else { w(&mut rng, &[0, 0, 1]) };
     let w_read = w(&mut rng, &[0, 1, 3]);
     let w_stat = w(&mut rng, &[0, 1]);
     let w_dump = if p.readers { w(&mut rng, &[1, 2, 3]) } else { w(&mut rng, &[0, 0, 1]) };
